@@ -1,7 +1,7 @@
 (* Dispatch.v -- one entry point per property for the OCaml driver. *)
 From Coq Require Import ZArith List.
-From CiwV Require Import Sx.
-From CiwV Require Acc.C01 Acc.C02 Acc.C04 Acc.C05 Acc.C06 Acc.C07 Acc.C08.
+From CiwV Require Import Sx Sched.
+From CiwV Require Acc.C01 Acc.C02 Acc.C04 Acc.C05 Acc.C06 Acc.C07 Acc.C08 Acc.C12.
 Import ListNotations.
 Open Scope Z_scope.
 
@@ -14,11 +14,33 @@ Definition dispatch (name : Z) (s : sx) : verdict :=
   | 6 => C06.run s
   | 7 => C07.run s
   | 8 => C08.run s
+  | 12 => C12.run s
   | _ => BadInput (-1)
   end.
 
 (* model evaluations that return data rather than a verdict *)
+Definition enc_sstate (s : sstate) : sx := L [A (s_c s); A (s_next_date s); A (s_next_c s)].
+Fixpoint upto (m : nat) : list nat := match m with O => [O] | S k => upto k ++ [m] end.
+
 Definition dispatch_model (name : Z) (s : sx) : sx :=
   match name with
+  | 12 => (* Schedule object: states after 0..m calls of get_next_shift *)
+    match s with
+    | L [b; v; A off; A m] =>
+      match getZs b, getZs v with
+      | Some b', Some v' => L (map (fun k => enc_sstate (run_shifts b' v' off k)) (upto (Z.to_nat m)))
+      | _, _ => L []
+      end
+    | _ => L []
+    end
+  | 13 => (* Slotted: (date, size) of slot 0..m *)
+    match s with
+    | L [b; v; A off; A m] =>
+      match getZs b, getZs v with
+      | Some b', Some v' => L (map (fun k => L [A (slot_date b' off k); A (slot_size v' k)]) (upto (Z.to_nat m)))
+      | _, _ => L []
+      end
+    | _ => L []
+    end
   | _ => L []
   end.
